@@ -1,11 +1,11 @@
 SPECIFICATION Spec
 CONSTANTS
-  Fam = "beam"
-  NW = 2
-  HeadLeft = TRUE
+  Fam = "unary"
+  NW = 3
+  HeadLeft = FALSE
   G <- Gram
-  TagScores <- Scores013
-  DepScores <- Scores0
+  TagScores <- Scores0
+  DepScores <- Scores01
   KBestN = 1
   MaxStep = 1000
   EstSign = 1
